@@ -647,6 +647,89 @@ def parseStmts (ts : List Tok) : Option PStmts :=
   | some (ss, []) => some ss
   | _ => none
 
+/-! ### function definitions and the program (§13, §14) -/
+
+/-- a SourceElement of the fragment: `name = function(params) { body };` (an ExpressionStatement whose expression
+    assigns a FunctionExpression to a dotted name), or a Statement -/
+inductive PTop where
+  | func (name : PE) (params : List Bytes) (body : PStmts)
+  | stmt (s : PS)
+
+/-- `.name .name …` behind a name -/
+def qnameTail : PE → List Tok → PE × List Tok
+  | x, .p s :: .id k :: r => if s = b!"." then qnameTail (.member x k) r else (x, .p s :: .id k :: r)
+  | x, r => (x, r)
+
+/-- a dotted name `a.b.c` -/
+def qnameP : List Tok → Option (PE × List Tok)
+  | .id g :: r => if isReserved g then none else some (qnameTail (.ident g) r)
+  | _ => none
+
+/-- FormalParameterList after the first name: `, x, y )` -/
+def paramsTail : List Tok → Option (List Bytes × List Tok)
+  | .p s :: r =>
+    if s = b!")" then some ([], r)
+    else if s = b!"," then
+      (match r with
+        | .id x :: r' =>
+          if isReserved x then none
+          else (match paramsTail r' with | some (xs, r'') => some (x :: xs, r'') | none => none)
+        | _ => none)
+    else none
+  | _ => none
+
+/-- FormalParameterList and the closing parenthesis -/
+def paramsP : List Tok → Option (List Bytes × List Tok)
+  | .id x :: r =>
+    if isReserved x then none
+    else (match paramsTail r with | some (xs, r') => some (x :: xs, r') | none => none)
+  | .p s :: r => if s = b!")" then some ([], r) else none
+  | _ => none
+
+/-- `= function (params) { body } ;` behind the name -/
+def funcRest (n : Nat) (name : PE) (r : List Tok) : Option (PTop × List Tok) :=
+  match eat b!"=" r with
+  | none => none
+  | some r1 =>
+    match eatId b!"function" r1 with
+    | none => none
+    | some r2 =>
+      match eat b!"(" r2 with
+      | none => none
+      | some r3 =>
+        match paramsP r3 with
+        | none => none
+        | some (ps, r4) =>
+          match eat b!"{" r4 with
+          | none => none
+          | some r5 =>
+            match stmtsN n r5 with
+            | none => none
+            | some (body, r6) =>
+              match eat b!"}" r6 with
+              | none => none
+              | some r7 =>
+                match eat b!";" r7 with
+                | some r8 => some (.func name ps body, r8)
+                | none => none
+
+/-- a SourceElement -/
+def topN (n : Nat) (ts : List Tok) : Option (PTop × List Tok) :=
+  match (match qnameP ts with | some (name, r) => funcRest n name r | none => none) with
+  | some x => some x
+  | none => (match stmtN n ts with | some (s, r) => some (.stmt s, r) | none => none)
+
+/-- Program: SourceElements to the end of the text -/
+def progN (n : Nat) : Nat → List Tok → Option (List PTop)
+  | _, [] => some []
+  | 0, _ :: _ => none
+  | k + 1, t :: ts =>
+    match topN n (t :: ts) with
+    | none => none
+    | some (x, r) => (match progN n k r with | some xs => some (x :: xs) | none => none)
+
+def parseProgram (ts : List Tok) : Option (List PTop) := progN (ts.length + 2) ts.length ts
+
 /-! ## 3. reading the tree as a `JsExpr` -/
 
 open SoyVerif.Spec.JsSemRef (JsExpr Fn1 Fn2)
@@ -907,6 +990,63 @@ end
 def jsParseStmts (s : Bytes) : Option JsStmts :=
   match jsLex s with
   | some ts => (match parseStmts ts with | some ss => readSs ss | none => none)
+  | none => none
+
+/-! ## 5. reading function definitions as `JsFunc`, and a file -/
+
+def sOutput : Bytes := b!"output"
+
+/-- the statements of a function body up to the final `return output;` -/
+def readRet : PStmts → Option JsStmts
+  | .nil => none
+  | .cons (.ret (.ident g)) .nil => if g == sOutput then some .nil else none
+  | .cons s r =>
+    match readS s, readRet r with
+    | some js, some jr => some (.cons js jr)
+    | _, _ => none
+
+/-- the body after the optional `opt_data = opt_data || {};`: `var output = '';` … `return output;` -/
+def readBody : PStmts → Option JsStmts
+  | .cons (.var [(x, .str [])]) r => if x == sOutput then readRet r else none
+  | _ => none
+
+/-- `name = function(opt_data, opt_sb, opt_ijData) { [opt_data = opt_data || {};] var output = ''; … return output; };` -/
+def readFunc (name : PE) (params : List Bytes) (body : PStmts) : Option JsFunc :=
+  if params == [sOptData, b!"opt_sb", b!"opt_ijData"] then
+    match qnameOf name with
+    | none => none
+    | some q =>
+      match body with
+      | .cons (.expr (.assign .set (.ident d) (.bin .or (.ident d') (.obj .nil)))) r =>
+        if d == sOptData && d' == sOptData then
+          (match readBody r with | some b => some ⟨q, true, b⟩ | none => none)
+        else none
+      | b => (match readBody b with | some b => some ⟨q, false, b⟩ | none => none)
+  else none
+
+/-- `if (typeof a.b == 'undefined') { a.b = {}; }` / `if (typeof a == 'undefined') { var a = {}; }` -/
+def isNsDecl : PS → Bool
+  | .ifS (.bin .eq (.unary .typeof q) (.str u)) (.block (.cons s .nil)) =>
+    u == b!"undefined" &&
+    (match qnameOf q, s with
+      | some n, .var [(x, .obj .nil)] => n == x
+      | some n, .expr (.assign .set q' (.obj .nil)) => qnameOf q' == some n && n.contains 46
+      | _, _ => false)
+  | _ => false
+
+/-- the functions of a program whose other elements are namespace declarations -/
+def readProgram : List PTop → Option (List JsFunc)
+  | [] => some []
+  | .func name ps body :: r =>
+    (match readFunc name ps body, readProgram r with
+      | some f, some fs => some (f :: fs)
+      | _, _ => none)
+  | .stmt s :: r => if isNsDecl s then readProgram r else none
+
+/-- the functions a text (a generated file, or a part of one) defines -/
+def jsParseFile (s : Bytes) : Option (List JsFunc) :=
+  match jsLex s with
+  | some ts => (match parseProgram ts with | some p => readProgram p | none => none)
   | none => none
 
 /-- the expression a text denotes -/
